@@ -45,7 +45,14 @@ def scenarios(quick):
                 S.append({'group': group, 'calls': list(calls), 'variant': v, 'prefill': prefill})
     a1, a2, a3 = C('athlon_score', 'M', '100', 10.5), C('athlon_score', 'F', 'WT', 12.0), C('athlon_score', 'M', 'LJ', 7.1, age=50)
     p1, p2 = C('athlon_performance_needed', 'M', '100', 1000), C('athlon_performance_needed', 'F', 'HJ', 800)
-    add('athlon', [(a1, a2), (a1, a1), (a1, p2), (p1, p2), (a3, a2), (p1, a1)] if not quick else [(a1, a2), (a1, p2), (p1, p2), (a3, a2)])
+    a4 = C('athlon_score', 'F', 'HJ', 1.5, age=60)
+    add('athlon', [(a1, a2), (a1, a1), (a1, p2), (p1, p2), (a3, a2), (p1, a1), (a3, a4), (a4, a3), (a3, a3)] if not quick else
+        [(a1, a2), (a1, p2), (p1, p2), (a3, a2), (a3, a4)])
+    # scorers without module-level mutable state today: different-argument pairs, so that a memo added later is seen
+    t1, t2 = C('tyrving_score', 'M', 15, '100', '12.10'), C('tyrving_score', 'F', 14, 'HJ', 1.5)
+    q1, q2 = C('qkids_score', 'QKSEC', '100', '13.5'), C('qkids_score', 'QKWL', 'LJ', 3.2)
+    b1, b2 = C('bulgarian_score', 'U16', 'M', '100', '12.5'), C('bulgarian_score', 'U16', 'F', 'LJ', 4.5)
+    add('stateless', [(t1, t2), (q1, q2), (b1, b2)] if quick else [(t1, t2), (q1, q2), (b1, b2), (t2, t1), (t1, q1), (b1, t2)], variants=('warm',))
     h1, h2 = C('hungarian_score', 'M', 'OUT', '100', 10.5), C('hungarian_score', 'F', 'IND', 'HJ', 1.8)
     add('hungarian', [(h1, h2), (h1, h1), (h2, h1)])
     s1, s2 = C('sportshall_score', 'SLJ', '2.10'), C('sportshall_score', '800', '150')
@@ -127,12 +134,60 @@ def _snapshot():
     m = sys.modules
     out = []
     so = getattr(m.get('athlib.athlon_score'), '_scoring_objects', None)
-    out.append('none' if so is None else ('full' if len(so) >= len(m['athlib.athlon_score']._scoring_table) else 'partial'))
+    out.append('none' if so is None else ('full%d' % len(so) if len(so) >= len(m['athlib.athlon_score']._scoring_table) else 'partial%d' % len(so)))
     tb = getattr(m.get('athlib.hungarian_score'), '_table', None)
-    out.append('none' if tb is None else ('full' if len(tb) >= len({tuple(x[:3]) for x in m['athlib.hungarian_score'].FACTORS}) else 'partial'))
+    out.append('none' if tb is None else ('full%d' % len(tb) if len(tb) >= len({tuple(x[:3]) for x in m['athlib.hungarian_score'].FACTORS}) else 'partial%d' % len(tb)))
     db = getattr(m.get('athlib.sportshall_score'), '_DB', None)
     out.append('none' if not db else ('full' if len(db) >= 13 else 'partial'))
     return ','.join(out)
+
+
+# source line (by text, never by number) -> label of the PlusCal model LazyPublish
+LABELS = {
+    'athlon': ('athlon_score.py', 0, [
+        (r'^if _scoring_objects is None', 'test'), (r'^for o in _scoring_table', 'LOOP'),
+        (r'^_scoring_objects = objects\b', 'publish'), (r'^_scoring_objects = \{\}', 'pubE'),
+        (r'^if key not in _scoring_objects', 'look')]),
+    'hungarian': ('hungarian_score.py', 1, [
+        (r'^if _table is None', 'test'), (r'^for \(gender, inout, event_code, a, b, c\) in FACTORS', 'LOOP'),
+        (r'^_table = table\b', 'publish'), (r'^_table = \{\}', 'pubE'), (r'^\(a,b,c\) = tbl\[key\]', 'look')]),
+}
+
+
+def model_events(group, trace, final):
+    """[thread (1-based), label, pub, n] per executed line, for Trace_LazyPublish.tla; [] when the source no
+    longer matches the patterns (drift unknown, never a failure)."""
+    import re, linecache
+    fname, idx, pats = LABELS[group]
+    path = os.path.join(common.REPO, 'athlib', fname)
+    try:
+        src = open(path).read()
+    except OSError:
+        return None
+    publish_first = any(re.search(p[1:], src, re.M) for p, lab in pats if lab == 'pubE')
+    needed = [p for p, lab in pats if lab in ('test', 'LOOP', 'look')]
+    if not all(re.search(p[1:], src, re.M) for p in needed):
+        return None
+
+    def state(snap):
+        part = snap.split(',')[idx]
+        if part == 'none':
+            return False, 0
+        return True, int(re.sub(r'\D', '', part) or 0)
+    out = []
+    for k, (tid, where, snap) in enumerate(trace):
+        fn, _, ln = where.rpartition(':')
+        label = 'other'
+        if fn == fname and ln.isdigit():
+            text = linecache.getline(path, int(ln)).strip()
+            for p, lab in pats:
+                if re.search(p, text):
+                    label = ('fill' if publish_first else 'build') if lab == 'LOOP' else lab
+                    break
+        post = trace[k + 1][2] if k + 1 < len(trace) else final
+        pub, n = state(post)
+        out.append([tid + 1, label, pub, n])
+    return {'init': list(state(trace[0][2])) if trace else [False, 0], 'events': out}
 
 
 def _solo(arg):
@@ -152,8 +207,10 @@ def _execute(arg):
     # resolver calls back into athlib thousands of times: there the AST-detected visible lines are used
     ctl = sched.Controlled(fns, os.path.join(common.REPO, 'athlib'), snapshot=_snapshot, all_lines=sc['group'] != 'cache')
     results, executed = ctl.run(segments)
+    final = _snapshot()
+    events = model_events(sc['group'], ctl.trace, final) if sc['group'] in LABELS and len(sc['calls']) == 2 else None
     snaps = sorted({s for _, _, s in ctl.trace})
-    return {'results': [_norm(r) for r in results], 'executed': executed, 'snaps': snaps,
+    return {'results': [_norm(r) for r in results], 'executed': executed, 'snaps': snaps, 'events': events,
             'steps': [[t, w] for t, w, _ in ctl.trace]}
 
 
@@ -199,6 +256,14 @@ def candidate_points(steps, limit):
                 break
         if v and ln.isdigit() and int(ln) in v:
             vis.append(k)
+    # first and last visit of every distinct visible line are always kept; repeated visits (loops) are thinned
+    first, last = {}, {}
+    for k in vis:
+        first.setdefault(steps[k], k)
+        last[steps[k]] = k
+    keep.update(first.values())
+    keep.update(last.values())
+    keep.update(k + 1 for k in list(first.values()) + list(last.values()))
     if len(vis) > limit:
         vis = vis[::len(vis) // limit + 1]
     keep.update(vis)
@@ -320,6 +385,30 @@ def run(tier):
                     rep.add_violation(sig, '%s [%s]: under schedule %s thread %d got %s, single-threaded %s' % (
                         desc, s['variant'], seg, i, ex['results'][i], s['expected'][i]),
                         {'scenario': {k: s[k] for k in ('group', 'calls', 'variant', 'prefill')}, 'segments': seg})
+        # code -> spec: the executions of the lazily-built-table code as behaviours of the PlusCal model
+        for group in sorted(LABELS):
+            tr = [(q, ex['events']) for q, ((s, seg), ex) in enumerate(zip(jobs, execs))
+                  if s['group'] == group and ex['events']]
+            if not tr:
+                rep.notes.append('%s: no execution could be mapped to model labels (source patterns not found)' % group)
+                continue
+            nrows = max(e[3] for _, t in tr for e in t['events'])
+            with open(os.path.join(specdir, 'Trace_LP_%s.cfg' % group), 'w') as f:
+                f.write('SPECIFICATION TraceSpec\nCONSTANTS\n Threads = {1, 2}\n NRows = %d\n PublishFirst = FALSE\n'
+                        'INVARIANT Accepted\nINVARIANT ObservedAtomic\nINVARIANT ObservedLinearizable\nCHECK_DEADLOCK FALSE\n' % nrows)
+            pth = sc_.file('lp_%s.ndjson' % group)
+            common.write_ndjson(pth, (t for _, t in tr))
+            r = common.run_tlc(specdir, 'Trace_LazyPublish', 'Trace_LP_%s.cfg' % group, workers=8, env={'TRACE_FILE': pth}, heap='4g')
+            rep.absorb_tlc(r, traces=len(tr))
+            accepted = {pr['accepted'] for pr in r.printed if 'accepted' in pr}
+            rejected = [tr[k - 1][0] for k in range(1, len(tr) + 1) if k not in accepted]
+            rep.cov.setdefault('pluscal_trace_validation', {})[group] = dict(traces=len(tr), accepted=len(accepted), rejected=len(rejected),
+                                                                             rows=nrows, invariant_violated=r.violated)
+            if r.violated:
+                rep.add_drift('%s: observed execution violates %s of the PlusCal model' % (group, r.violated))
+            for q in rejected[:5]:
+                s, seg = jobs[q]
+                rep.add_drift('%s: execution under schedule %s is not a behaviour of LazyPublish (fixed variant)' % (group, seg))
         for (s, seg), ex in zip(jobs, execs):
             distinct.add((s['id'], tuple(ex['executed'])))
         rep.setcov('scenarios', len(S))
